@@ -109,3 +109,40 @@ Example C08_package_example :
   | None => False
   end.
 Proof. vm_compute. repeat split. Qed.
+
+(* ---- finding C08-MRO: the module does NOT always load ----
+   The full statement "every generated class statement is accepted by Python" fails on the faithful
+   model: bases are the alphabetically sorted fragment names, so a fragment that is spread next to a
+   fragment inheriting from it is listed first, and `class QDog(A, B)` with `class B(A)` has no C3
+   linearisation.  (Python's MRO algorithm itself is not modelled; mro_hazard1 is the syntactic pattern,
+   and the tie imports every generated package.) *)
+Definition C08_loadable_full : Prop := forall fuel sch frags ops snake o p,
+  generate_package fuel sch frags ops snake o = Some p -> mro_hazard1 p = false.
+
+Definition sch_mro : aschema := {|
+  s_types := [("Query", KObj []); ("Dog", KObj []); ("Int", KLeaf)];
+  s_fields := [("Query", [("dog", "Dog")]); ("Dog", [("a", "Int"); ("b", "Int")])] |}.
+Definition frags_mro : list fragdef :=
+  [ {| fr_name := "A"; fr_on := "Dog"; fr_mixins := []; fr_sel := [SField None "a" [] []] |};
+    {| fr_name := "B"; fr_on := "Dog"; fr_mixins := []; fr_sel := [SField None "b" [] []; SSpread "A"] |} ].
+Definition ops_mro : list opdef :=
+  [ {| o_name := "Q"; o_root := "Query"; o_mixins := [];
+       o_sel := [SField None "dog" [] [SSpread "B"; SSpread "A"]] |} ].
+
+Theorem C08_loadable_refuted : ~ C08_loadable_full.
+Proof.
+  intro H.
+  destruct (generate_package 100 sch_mro frags_mro ops_mro true id_oracle) as [p|] eqn:E; [|vm_compute in E; discriminate].
+  specialize (H _ _ _ _ _ _ _ E). vm_compute in E. inversion E; subst. vm_compute in H. discriminate.
+Qed.
+Print Assumptions C08_loadable_refuted.
+
+Example C08_mro_witness :
+  match generate_package 100 sch_mro frags_mro ops_mro true id_oracle with
+  | Some p => map (fun r => map (fun c => (c_name c, c_bases c)) (snd (fst r))) (pk_ops p) =
+                [[("Q", ["BaseModel"]); ("QDog", ["A"; "B"])]] /\
+              option_map (fun m => map (fun nc => map (fun c => (c_name c, c_bases c)) (snd nc)) (fm_classes m)) (pk_module p) =
+                Some [[("A", ["BaseModel"])]; [("B", ["A"])]]
+  | None => False
+  end.
+Proof. vm_compute. repeat split. Qed.
